@@ -11,6 +11,7 @@ import (
 	"fmt"
 	"os"
 	"sort"
+	"strings"
 )
 
 type runFn func(o *opts) (*summary, error)
@@ -24,6 +25,16 @@ type opts struct {
 	shards int
 	replay string
 	extra  string
+}
+
+// extraArg reads "key=value" pairs from the -x flag ("k1=v1;k2=v2")
+func (o *opts) extraArg(key string) string {
+	for _, kv := range strings.Split(o.extra, ";") {
+		if strings.HasPrefix(kv, key+"=") {
+			return kv[len(key)+1:]
+		}
+	}
+	return ""
 }
 
 type summary struct {
